@@ -327,6 +327,7 @@ type runConfig struct {
 	// late lists solvers of the race that start only after lateAfterMS
 	late        []string
 	lateAfterMS int
+	idxBase     int // offset for the names of the query files of a second pass
 }
 
 func (o *Obligation) script(pre string, seed int) string {
@@ -423,7 +424,7 @@ func (o *Obligation) discharge(rc runConfig, idx int) {
 		}
 		n++
 		sp := sp
-		file := filepath.Join(rc.workdir, fmt.Sprintf("o%05d.%s.smt2", idx, sp.name))
+		file := filepath.Join(rc.workdir, fmt.Sprintf("o%05d.%s.smt2", idx+rc.idxBase, sp.name))
 		if err := os.WriteFile(file, []byte(o.script(sp.pre, rc.seed)), 0o644); err != nil {
 			ch <- res{sp.name, "error", err.Error()}
 			continue
